@@ -65,7 +65,7 @@ def arrLine (kind : String) (rest : List String) : String :=
             | some sj => sj.cid == sl.cid && !content.isEmpty
             | none => false))
           emit (s!"e={fmtN sl.map.extents} s={fmtN sl.map.strides} csz={content.length} sz={prod sl.map.extents} " ++
-                s!"al={if al.isEmpty then "-" else String.join (al.map toString)} dh=1")
+                s!"al={if al.isEmpty then "-" else String.join (al.map toString)} dh=1 fw=1")
       | "ov" =>
         match (s.views[nn 1]?).getD none with
         | none => emit "none"
